@@ -60,7 +60,7 @@ def kind_of_detail(d):
 LAST_PRINTS = {}
 
 
-def model_runs(chk, cfgs, canaries, module="RecVerifier", extra_ok=()):
+def model_runs(chk, cfgs, canaries, module="RecVerifier", extra_ok=(), mutants=()):
     """runs the catalogue configurations and the canaries (3 TLC at a time); returns ({key: lines}, {canary: class})"""
     jobs = [("cat", k, c) for k, c in cfgs.items()] + [("can", k, c) for k, c in canaries.items()] + [("ok", c, c) for c in extra_ok]
 
@@ -75,6 +75,9 @@ def model_runs(chk, cfgs, canaries, module="RecVerifier", extra_ok=()):
                     chk.canary("spec canary: %s switched off must break the agreement (%s)" % (key, cfg), False)
                 m = re.findall(r'name \|-> "([^"]+)"', r.raw)
                 named[key] = m[-1] if m else None
+                if key in mutants:
+                    chk.canaries["spec mutant: %s -> TLC counterexample (%s)" % (key, r.violated)] = True
+                    continue
                 chk.canaries["spec canary: with the %s switched off TLC finds a class on which circuit and native verdict differ (%s)" % (key, named[key])] = True
                 continue
             if not r.ok:
@@ -162,8 +165,9 @@ def run_parallel(rows, name, nproc, extra=None, nslots=None):
     return [r for o in outs for r in o]
 
 
-def judge(rows_by_id, res, cats, report):
-    """report(kind, key, detail, payload); returns statistics"""
+def judge(rows_by_id, res, cats, report, selftest=False):
+    """report(kind, key, detail, payload); returns statistics.  Rows of the in-run binding self-test
+    (flag "selftest") are judged only when `selftest` is set, and only then."""
     st = {"cases": 0, "agree_accept": 0, "agree_reject": 0, "unassignable": 0, "outer_checked": 0, "classes": {}, "shapes": 0,
           "stages": {}, "distinct": set(), "first_mismatch": {}, "skipped": {}}
     shape = {}
@@ -176,7 +180,7 @@ def judge(rows_by_id, res, cats, report):
             shape[x["id"]] = x["shape"]
             st["shapes"] += 1
             continue
-        if "class" not in x or x.get("empty"):
+        if "class" not in x or x.get("empty") or bool(x.get("selftest")) != selftest:
             continue
         s = rows_by_id[x["id"]]
         sh = shape[x["id"]]
@@ -272,6 +276,7 @@ def run(chk, tier):
         r["classes"] = sc
         r["per_class"] = 4 if thorough else (1 if r["cfg"]["zk"] else 2)
         r["sample"] = 3 if thorough else 2
+        r["selftest"] = r["slot"] == 0
     res = run_parallel(rows, "c06_run", 4 if thorough else 3)
     common.write_ndjson(os.path.join(common.OUT, "c06_results.ndjson"), res)
     byid = {r["id"]: r for r in rows}
@@ -310,11 +315,10 @@ def run(chk, tier):
     for what, cls in named.items():
         chk.canary("the class named by the spec canary (%s: %s) is part of the replay" % (what, cls),
                    cls is not None and st["classes"].get(cls, {}).get("native_reject", 0) > 0)
-    # ---- binding canary: the circuit is shown the untampered proof while the native verdict is the tampered one's
-    can_rows = [dict(r, id="k" + r["id"], classes={k: ["none", "final_poly"] for k in sc}) for r in rows if r["slot"] == 0]
-    cres = run_parallel(can_rows, "c06_canary", 1, extra=["--selftest"])
+    # ---- binding canary (rows flagged "selftest"): the circuit was shown the untampered proof while the native
+    # verdict is the tampered one's
     flagged = []
-    judge({r["id"]: r for r in can_rows}, cres, cats, lambda kind, key, d, p: flagged.append(key) if kind == "violation" else None)
+    judge(byid, res, cats, lambda kind, key, d, p: flagged.append(key) if kind == "violation" else None, selftest=True)
     chk.canary("binding: a flipped circuit verdict (untampered proof assigned, tampered proof judged natively) is reported",
                any(k.startswith("C06/disagree/final_poly") for k in flagged))
 
